@@ -3,7 +3,8 @@
 import sys, os, subprocess, shutil
 unit, rel, old, new = sys.argv[1:5]
 M = '/var/tmp/nervus-verif/mut'
-subprocess.run(['rsync', '-a', '--delete', '--exclude', 'target', '--exclude', '.git', '/repo/', M + '/'], check=True)
+BASE = __import__('os').environ.get('MUT_BASE', '/repo').rstrip('/') + '/'
+subprocess.run(['rsync', '-a', '--delete', '--exclude', 'target', '--exclude', '.git', BASE, M + '/'], check=True)
 p = os.path.join(M, rel)
 s = open(p).read()
 old = old.encode().decode('unicode_escape'); new = new.encode().decode('unicode_escape')
